@@ -103,6 +103,14 @@ def histories(draw):
 def cases(draw, specials):
     hist, pre = draw(histories())
     pws = draw(st.lists(pwgen.password(specials=specials), min_size=1, max_size=6))
+    if draw(st.integers(0, 2)) == 0:
+        # a long multi-word followed by its tails: the detector sees the same sub-problems again (shared state between parses)
+        ws = draw(st.lists(st.sampled_from(pwgen.WORDS[:9]), min_size=3, max_size=4))
+        hist = hist + [[w, draw(st.sampled_from([5, 6]))] for w in set(ws)]
+        chain = [''.join(ws[i:]) for i in range(len(ws) - 1)]
+        if draw(st.booleans()):
+            chain = [c.capitalize() for c in chain]
+        pws = pws + chain + [draw(st.sampled_from(['1', '!', ''])) + c for c in chain[1:]]
     return {'history': hist, 'pretrain': pre, 'passwords': pws}
 
 
